@@ -47,14 +47,14 @@ const (
 )
 
 var (
-	sites      []*site
-	funcNames  []string
-	funcIndex  = map[string]int{}
-	groupNames []string
-	groupIndex = map[types.Object]int{}
+	sites                                                                           []*site
+	funcNames                                                                       []string
+	funcIndex                                                                       = map[string]int{}
+	groupNames                                                                      []string
+	groupIndex                                                                      = map[types.Object]int{}
 	mapRewrites, mapUncontrolled, goRewrites, goUncontrolled, lockSites, funcsInstr int
-	uniq       int
-	modPath    string
+	uniq                                                                            int
+	modPath                                                                         string
 )
 
 func funcID(name string) int {
